@@ -25,7 +25,7 @@ OpSet ==
     \cup {[op |-> "wreset", w |-> w] : w \in WP}
     \cup {[op |-> "ualloc", u |-> u, clr |-> c, ok |-> k, zero |-> FALSE] : u \in UP, c \in BOOLEAN, k \in OKs1}
     \cup {[op |-> "ualloc", u |-> u, clr |-> FALSE, ok |-> <<TRUE>>, zero |-> TRUE] : u \in UP}
-    \cup {[op |-> "urelease", u |-> u] : u \in UP} \cup {[op |-> "ureset", u |-> u] : u \in UP}
+    \cup {[op |-> "urelease", u |-> u, outs |-> x] : u \in UP, x \in 0..3} \cup {[op |-> "ureset", u |-> u] : u \in UP}
     \cup {[op |-> "uget", u |-> u] : u \in UP}
     \cup {[op |-> "uswap", a |-> p[1], b |-> p[2]] : p \in {x \in UP \X UP : x[1] < x[2]}}
 \* the allocator's live set according to the model's own events
